@@ -188,6 +188,27 @@ func c09ArgByType(w *World, r *Report) {
 	}
 	sym := NewSym(w)
 	rows := sym.retTable(sf, 0)
+	kindParam := sf.Params[0]
+	if len(rows) < 10 {
+		// the dispatch moved into a helper of the package that is handed the kind
+		for g := range calleesDeep(sf, 1) {
+			if g.Pkg != sf.Pkg || g.Blocks == nil || g == sf || len(ssaLoops(g)) > 0 {
+				continue
+			}
+			var kp *ssa.Parameter
+			for _, prm := range g.Params {
+				if types.Identical(prm.Type(), sf.Params[0].Type()) {
+					kp = prm
+				}
+			}
+			if kp == nil {
+				continue
+			}
+			if gr := sym.retTable(g, 0); len(gr) > len(rows) {
+				rows, kindParam = gr, kp
+			}
+		}
+	}
 	argTypeOf := func(v ssa.Value) string {
 		set := map[string]bool{}
 		seen := map[ssa.Value]bool{}
@@ -231,7 +252,7 @@ func c09ArgByType(w *World, r *Report) {
 	for v, name := range names {
 		for _, row := range rows {
 			hit, ok := pcEvalFree(row.cond, func(a *pcAtom) (bool, bool) {
-				if bo, ok := a.v.(*ssa.BinOp); ok && a.subj != "" && (readsParam(bo.X, sf.Params[0]) || readsParam(bo.Y, sf.Params[0])) {
+				if bo, ok := a.v.(*ssa.BinOp); ok && a.subj != "" && (readsParam(bo.X, kindParam) || readsParam(bo.Y, kindParam)) {
 					return a.set.contains(v), true
 				}
 				return false, false
